@@ -20,6 +20,9 @@ CLAIMED = {
  'C11': dict(design='4/C11', technique='each defining equation of the manual is a TLC invariant lhs = rhs over enumerated argument streams, counts and inputs; both sides replayed on the library',
    text='TLC instantiates every documented equation (limit/skip, first, last, nth, isempty, any/all, add, select, error, reduce/foreach expansions, range/1,2,3 = while definition, repeat, recurse, while, until, empty) with all small argument streams containing errors, empties and multiplicities and counts around 0 and the stream length, proves lhs = rhs on the specification and replays both sides on the real code.',
    note='counts beyond 2^31 are in C09; same trusted base as C01'),
+ 'C08': dict(design='4/C08', technique='TLA+ model of the documented order and of an implementation-shaped hash function; TLC checks order axioms and hash/equality coherence on all pairs and triples of atoms; vectors for 15 operations replayed on the library',
+   text='TLC proves on the specification, for all pairs and triples of ~48 atoms covering every number representation, string kind, arrays and objects with different insertion order: trichotomy, antisymmetry, transitivity, uniqueness of the stable sort, and that values that are equal fall in the same class of a model of jaq-json`s Hash impl; every pair x 15 lookup/sort/merge operations and every triple x 4 sorts is replayed on the real code.',
+   note='NaN and integers beyond 2^53 vs floats are excluded by the property itself; floats restricted to exactly representable ones; hash model is a hand transcription of impl Hash for Num/Val'),
 }
 
 checks = []
